@@ -252,6 +252,19 @@ func (ci *ChunkInfo) getChunkCid(rootCid boson.Address) []*PyramidCidNum {
 	return cids
 }
 
+// isDataCid reports whether cid is one of the file's data chunks, i.e.
+// whether it has a position in the file's availability vector.
+func (ci *ChunkInfo) isDataCid(rootCid, cid boson.Address) bool {
+	ci.cp.RLock()
+	defer ci.cp.RUnlock()
+	pyramid, err := ci.getPyramid(rootCid)
+	if err != nil {
+		return false
+	}
+	_, ok := pyramid.cids[cid.String()]
+	return ok
+}
+
 func (ci *ChunkInfo) getCidSort(rootCid, cid boson.Address) int {
 	ci.cp.RLock()
 	defer ci.cp.RUnlock()
